@@ -189,7 +189,20 @@ func c13dyn(c *wk.Ctx) {
 						genOK = false
 						break
 					}
+					if av.Kind() == reflect.Bool {
+						// position i is true in repetition r iff bit r of (i+1) is set: any two positions differ in some repetition
+						av = reflect.ValueOf(((i+1)>>uint(rep%3))&1 == 1).Convert(at)
+					}
 					args = append(args, av)
+				}
+				nb := 0
+				for _, a := range args {
+					if a.Kind() == reflect.Bool {
+						nb++
+					}
+				}
+				if nb >= 2 && nrep < 3 {
+					nrep = 3
 				}
 				if !genOK {
 					idx++
